@@ -427,13 +427,14 @@ class _Agg(Contract):
     with_indices = False
     with_jac = False
     with_rho = False
+    vector_scale = False  # scale: a number, or (variant) a vector with one factor per component
     psum_definition = False  # sums are reasoned about through proved consequences of their definition (PrefixSumLemmas), instantiated
     psum_positive_lemma = True  # ... by the numpy plugin for every sum it builds (positivity of a sum of positive terms)
     exp_positive = True  # numpy.exp(array): every element is > 0
 
     @classmethod
     def make_params(cls):
-        p = {"orig_val": F1, "scale": TReal}
+        p = {"orig_val": F1, "scale": F1 if cls.vector_scale else TReal}
         if cls.with_jac:
             p["orig_jac"] = F2
         if cls.with_rho:
@@ -444,6 +445,8 @@ class _Agg(Contract):
     def requires(self, c):
         v = c.old.orig_val
         out = [("at-least-one-component", ln(v) >= 1)]
+        if self.vector_scale:
+            out.append(("one-scale-factor-per-component", ln(c.old.scale) == ln(v)))
         if self.with_jac:
             out.append(("jacobian-has-one-row-per-component", ln(c.old.orig_jac, 0) == ln(v)))
         if self.with_rho:
@@ -463,13 +466,24 @@ class _Agg(Contract):
             return (lambda k: idx.elems[k]), idx.n
         return (lambda k: k), ln(c.old.orig_val)
 
+    def s_at(self, c, i):
+        return el(c.old.scale, i) if self.vector_scale else c.old.scale
+
     def finding_regions(self, c):
         if self.with_indices:
             return {}
+        if self.vector_scale:
+            i = z3.Int("i!fr")
+            return {"all-components-and-scale-not-1": z3.Exists([i], z3.And(0 <= i, i < ln(c.old.scale), el(c.old.scale, i) != 1)),
+                    "vector-scale-and-several-components": ln(c.old.orig_val) > 1}
         return {"all-components-and-scale-not-1": c.old.scale != 1}
 
 
-def agg_variants(base):
+def agg_variants(base, vector_scale=False):
+    if vector_scale:
+        cls = type(base.__name__ + "VectorScale", (base,), {"vector_scale": True, "variant": "all-components,vector-scale", "__doc__": base.__doc__})
+        cls.params = cls.make_params()
+        register(cls)
     for wi in (False, True):
         cls = type(base.__name__ + ("Subset" if wi else "All"), (base,), {"with_indices": wi, "variant": "subset-of-components" if wi else "all-components",
                                                                         "__doc__": base.__doc__})
@@ -498,9 +512,9 @@ class SumSquare(_Agg):
     weight = staticmethod(lambda t: z3.RealVal(1))
 
     def ensures(self, c):
-        v, s = c.old.orig_val, c.old.scale
+        v = c.old.orig_val
         at, cnt = self.sel(c)
-        return sum_clauses(c, "value", c.result, lambda: series(lambda k: s * (el(v, at(k)) * el(v, at(k))) * self.weight(el(v, at(k))), cnt))
+        return sum_clauses(c, "value", c.result, lambda: series(lambda k: self.s_at(c, at(k)) * (el(v, at(k)) * el(v, at(k))) * self.weight(el(v, at(k))), cnt))
 
 
 class SumPositiveSquare(SumSquare):
@@ -519,12 +533,12 @@ class TotalSumSquareJac(_Agg):
     weight = staticmethod(lambda t: z3.RealVal(1))
 
     def ensures(self, c):
-        v, J, s = c.old.orig_val, c.old.orig_jac, c.old.scale
+        v, J = c.old.orig_val, c.old.orig_jac
         at, cnt = self.sel(c)
         r = c.result
         j = z3.Int("j!ts")
         return [("size", ln(r) == ln(J, 1))] + sum_clauses(
-            c, "entries", el(r, j), lambda: series(lambda k: 2 * s * el(v, at(k)) * self.weight(el(v, at(k))) * el(J, at(k), j), cnt), [j], z3.And(0 <= j, j < ln(J, 1)))
+            c, "entries", el(r, j), lambda: series(lambda k: 2 * self.s_at(c, at(k)) * el(v, at(k)) * self.weight(el(v, at(k))) * el(J, at(k), j), cnt), [j], z3.And(0 <= j, j < ln(J, 1)))
 
 
 class TotalSumPositiveSquareJac(TotalSumSquareJac):
@@ -542,7 +556,7 @@ class PartialSumSquareJac(_Agg):
     weight = staticmethod(lambda t: z3.RealVal(1))
 
     def entry(self, c, i):
-        return 2 * c.old.scale * el(c.old.orig_val, i) * self.weight(el(c.old.orig_val, i))
+        return 2 * self.s_at(c, i) * el(c.old.orig_val, i) * self.weight(el(c.old.orig_val, i))
 
     def ensures(self, c):
         return row_clauses(self, c, lambda i: self.entry(c, i))
@@ -578,13 +592,14 @@ class MaxAgg(_Agg):
     returns = F1
 
     def ensures(self, c):
-        v, s = c.old.orig_val, c.old.scale
+        v = c.old.orig_val
         at, cnt = self.sel(c)
         r = c.result
         k = z3.Int("k!mx")
+        sv = lambda k: self.s_at(c, at(k)) * el(v, at(k))  # noqa: E731
         return [("size-1", ln(r) == 1),
-                ("dominates-every-component", z3.ForAll([k], z3.Implies(z3.And(0 <= k, k < cnt), s * el(v, at(k)) <= el(r, 0)))),
-                ("is-one-of-the-components", attained(c, z3.simplify(el(r, 0)), lambda k: s * el(v, at(k)), cnt))]
+                ("dominates-every-component", z3.ForAll([k], z3.Implies(z3.And(0 <= k, k < cnt), sv(k) <= el(r, 0)))),
+                ("is-one-of-the-components", attained(c, z3.simplify(el(r, 0)), sv, cnt))]
 
 
 class MaxAggJac(_Agg):
@@ -597,21 +612,22 @@ class MaxAggJac(_Agg):
     def ensures(self, c):
         from pyvc.state import Undecided
 
-        v, J, s = c.old.orig_val, c.old.orig_jac, c.old.scale
+        v, J = c.old.orig_val, c.old.orig_jac
         at, cnt = self.sel(c)
         r = c.result
+        sv = lambda k: self.s_at(c, at(k)) * el(v, at(k))  # noqa: E731
         if "i_max" not in c.locals:
             raise Undecided("the local 'i_max' (witness of the maximal component) no longer exists")
         w = c.locals["i_max"]
         k, j = z3.Int("k!mj"), z3.Int("j!mj")
         return [("size", ln(r) == ln(J, 1)),
                 ("witness-in-range", z3.And(0 <= w, w < cnt)),
-                ("witness-is-maximal", z3.ForAll([k], z3.Implies(z3.And(0 <= k, k < cnt), s * el(v, at(k)) <= s * el(v, at(w))))),
-                ("row-of-the-maximal-component", z3.ForAll([j], z3.Implies(z3.And(0 <= j, j < ln(J, 1)), el(r, j) == s * el(J, at(w), j))))]
+                ("witness-is-maximal", z3.ForAll([k], z3.Implies(z3.And(0 <= k, k < cnt), sv(k) <= sv(w)))),
+                ("row-of-the-maximal-component", z3.ForAll([j], z3.Implies(z3.And(0 <= j, j < ln(J, 1)), el(r, j) == self.s_at(c, at(w)) * el(J, at(w), j))))]
 
 
 for _b in (SumSquare, SumPositiveSquare, TotalSumSquareJac, TotalSumPositiveSquareJac, PartialSumSquareJac, PartialSumPositiveSquareJac, MaxAgg, MaxAggJac):
-    agg_variants(_b)
+    agg_variants(_b, vector_scale=_b in (SumSquare, TotalSumSquareJac, PartialSumSquareJac, MaxAgg, MaxAggJac))
 
 
 # ---------------------------------------------------------------------------- smooth maxima (KS, IKS)
@@ -630,7 +646,7 @@ class _Smooth(_Agg):
         if len(calls) != 1:
             raise Undecided("the function no longer computes exactly one maximum (the shift of the exponentials)")
         M = calls[0][0]
-        sv = lambda k: s * el(v, at(k))  # noqa: E731
+        sv = lambda k: self.s_at(c, at(k)) * el(v, at(k))  # noqa: E731
         e = lambda k: np_exp(rho * (sv(k) + 1 - M))  # noqa: E731
         k = z3.Int("k!sm")
         is_max = [("shift-dominates-every-component", z3.ForAll([k], z3.Implies(z3.And(0 <= k, k < cnt), sv(k) <= M))),
@@ -677,7 +693,7 @@ class TotalKSJac(_Smooth):
         if self.with_indices:  # formula stated for the all-components variant only (proof not stable enough with the index indirection)
             return is_max + [("size", ln(r) == ln(J, 1))]
         return is_max + [("size", ln(r) == ln(J, 1))] + sum_clauses(
-            c, "entries", el(r, j), lambda: series(lambda k: (e(k) / series(e, cnt)) * (s * el(J, at(k), j)), cnt), [j], z3.And(0 <= j, j < ln(J, 1)))
+            c, "entries", el(r, j), lambda: series(lambda k: (e(k) / series(e, cnt)) * (self.s_at(c, at(k)) * el(J, at(k), j)), cnt), [j], z3.And(0 <= j, j < ln(J, 1)))
 
 
 class PartialKSJac(_Smooth):
@@ -750,7 +766,7 @@ class PartialIKSJac(_Smooth):
 
 
 for _b in (UpperBoundKS, LowerBoundKS, TotalKSJac, PartialKSJac, IKS, TotalIKSJac, PartialIKSJac):
-    agg_variants(_b)
+    agg_variants(_b, vector_scale=_b in (UpperBoundKS, TotalKSJac))
 
 
 # ============================================================================ negation helpers of MDOFunction, linear functions
